@@ -76,9 +76,14 @@ class Watch:
             n0 = self.n0[end]
             if st[0] == 'deliver' and ((st[1] == 's' and end == 'c') or (st[1] == 'c' and end == 's')):
                 n0 = max(n0 - 1, 0)
+            if st[0] == 'round' and ((st[1] == 's' and end == 'c') or (st[1] == 'c' and end == 's')):
+                n0 = 0
+                continue      # this end's queue only shrank (its frames were delivered to the peer)
             new = frames_of(mux, n0)
             data = [f for f in new if f[1] == ss.CMD_TCP_DATA]
-            if self.full0[end] and data:
+            # (inside a real round the PONG may arrive and lift the pause before data is queued: judge a round only if
+            # the end is still paused afterwards)
+            if self.full0[end] and data and (st[0] != 'round' or mux.too_full):
                 tg.report(ctx, self.sc, 'C09:gate:stream-data-queued-while-too-full', 0, 'step %r' % (st,),
                           'no TCP_DATA queued between the rttest PING and its PONG',
                           [(c, n) for c, _m, n, _d in data])
